@@ -174,7 +174,7 @@ func groupViaAPI(r *hx.Rng, res *hx.Result, n, k int) *group {
 }
 
 // key generation through the node's own DKG code (group_create.groupNodeInfo)
-func groupViaDKG(r *hx.Rng, res *hx.Result, n int) *group {
+func groupViaDKG(r *hx.Rng, res *hx.Result, cs *caseBuf, n int) *group {
 	g := &group{n: n, via: "dkg"}
 	g.ids = distinctIDs(r, n)
 	ids := make([]groupsig.ID, n)
@@ -193,28 +193,62 @@ func groupViaDKG(r *hx.Rng, res *hx.Result, n int) *group {
 		mi.ID = ids[d]
 		nodes[d] = gc.VerifDKGNew(mi, gh, n)
 		g.k = nodes[d].Threshold()
-		var cs []*big.Int
+		var coef []*big.Int
 		for _, s := range nodes[d].Coefficients() {
-			cs = append(cs, s.GetBigInt())
+			coef = append(coef, s.GetBigInt())
 		}
-		g.dealers = append(g.dealers, cs)
-		gsk.Add(gsk, cs[0]).Mod(gsk, order)
+		g.dealers = append(g.dealers, coef)
+		gsk.Add(gsk, coef[0]).Mod(gsk, order)
 		pieces[d] = nodes[d].GenSharePiece(ids)
 		pubs[d] = nodes[d].SeedPubKey()
 	}
+	var dsTerms []string
+	for d := 0; d < n; d++ {
+		dsTerms = append(dsTerms, fmt.Sprintf("(%s, %s)", zs(g.ids[d]), zlist(g.dealers[d])))
+	}
 	for j := 0; j < n; j++ {
-		last := 0
+		// arrival sequence: every dealer once in random order, repeats of already delivered dealers
+		// in between, one more repeat after completion
+		var arrivals []int
 		for _, d := range perm(r, n) {
+			arrivals = append(arrivals, d)
+			if r.Intn(3) == 0 {
+				arrivals = append(arrivals, arrivals[r.Intn(len(arrivals))])
+			}
+		}
+		arrivals = append(arrivals, r.Intn(n))
+		delivered := map[int]bool{}
+		var rcs []string
+		done := false
+		for _, d := range arrivals {
 			sh := pieces[d][ids[j].GetHexString()]
-			last = nodes[j].HandleSharePiece(ids[d], &model.SharePiece{Share: sh, Pub: pubs[d]})
+			rc := nodes[j].HandleSharePiece(ids[d], &model.SharePiece{Share: sh, Pub: pubs[d]})
+			rcs = append(rcs, fmt.Sprintf("(%d)%%Z", rc))
+			want := 0
+			if delivered[d] {
+				want = -1
+			} else {
+				delivered[d] = true
+				if len(delivered) == n {
+					want = 1
+					done = true
+				}
+			}
+			if rc != want {
+				key := "C13/dkg-aggregate"
+				if want == -1 {
+					key = "C13/dkg-duplicate-piece"
+				}
+				res.Violate(key, fmt.Sprintf("handleSharePiece returned %d, expected %d (member %d, dealer %d, %d of %d dealers delivered)", rc, want, j, d, len(delivered), n),
+					map[string]interface{}{"ids": strs(g.ids), "arrivals": arrivals})
+			}
 		}
-		if last != 1 {
-			res.Violate("C13/dkg-aggregate", fmt.Sprintf("handleSharePiece returned %d after all %d pieces", last, n), strs(g.ids))
+		sk := nodes[j].SignSecKey().GetBigInt()
+		if j < 3 {
+			cs.add(fmt.Sprintf("CNode %s %s %s %s %s %s", zs(g.ids[j]), hx.CoqList(dsTerms), natlist(arrivals), hx.CoqList(rcs), hx.CoqBool(done), zs(sk)),
+				map[string]interface{}{"kind": "dkg-node", "n": n, "member": j, "arrivals": arrivals, "sk": sk.String()})
 		}
-		// a second piece from the same dealer must be refused
-		if rc := nodes[j].HandleSharePiece(ids[0], &model.SharePiece{Share: pieces[0][ids[j].GetHexString()], Pub: pubs[0]}); rc != -1 {
-			res.Violate("C13/dkg-duplicate-piece", fmt.Sprintf("duplicate share piece returned %d", rc), strs(g.ids))
-		}
+		res.Count("dkg-node", fmt.Sprint("nd", strs(g.ids), j, arrivals), true)
 		g.keys = append(g.keys, nodes[j].SignSecKey().GetBigInt())
 		if j == 0 {
 			g.gpk = nodes[j].GroupPubKey()
@@ -224,6 +258,30 @@ func groupViaDKG(r *hx.Rng, res *hx.Result, n int) *group {
 	}
 	g.gsk = gsk
 	return g
+}
+
+// model cases are buffered and written interleaved, so that the expensive ones (large groups) spread
+// evenly over the shards that coqc evaluates in parallel
+type caseBuf struct {
+	terms []string
+	descs []interface{}
+}
+
+func (c *caseBuf) add(term string, js interface{}) {
+	c.terms = append(c.terms, term)
+	c.descs = append(c.descs, js)
+}
+
+func (c *caseBuf) flush(out *hx.Cases, perShard int) {
+	shards := (len(c.terms) + perShard - 1) / perShard
+	if shards < 1 {
+		shards = 1
+	}
+	for s0 := 0; s0 < shards; s0++ {
+		for i := s0; i < len(c.terms); i += shards {
+			out.Add(c.terms[i], c.descs[i])
+		}
+	}
 }
 
 func subsets(n, minSize int) [][]int {
@@ -247,9 +305,12 @@ func main() {
 	rng := hx.NewRng(a.Seed)
 	res := hx.NewResult("direct search: groups of n=3..10 members (k=GetGroupK(n)) built with the groupsig API and with the node's DKG code; " +
 		"every subset of >= k members (quick: all for n<=7, 40 sampled per larger n; thorough: all), 3 arrival orders each, through AddWitnessSign and through RecoverGroupSignature; " +
-		"model cases: ShareSeckey/AggregateSeckeys scalars, recovery with arbitrary share scalars, DKG runs, GetGroupK, generator runs. " +
+		"repeated members and repeated dealer pieces must be refused, RandomPerm/getRandomKSignInfo must return a k-subset, GetGroupK(n) = ceil(51n/100) for n < 3000; " +
+		"model cases: ShareSeckey/AggregateSeckeys scalars, recovery with arbitrary share scalars (map and ordered slices, ids congruent mod r, repeated id), DKG runs, per-member handleSharePiece runs, RandomPerm, GetGroupK, generator runs. " +
 		"non-trivial = distinct (group, subset, order, path) with |subset| >= k, or a model case with >= 2 points")
-	cs := hx.NewCases(a.Out, "From V.C13 Require Import Model Harness.", "case", "check", 60)
+	const perShard = 50
+	out := hx.NewCases(a.Out, "From V.C13 Require Import Model Harness.", "case", "check", perShard)
+	cs := &caseBuf{}
 	model.Param.SSSSThreshold = model.SSSS_THRESHOLD
 	model.Param.GroupMemberMax = model.GROUP_MAX_MEMBERS
 	model.Param.GroupMemberMin = 3
@@ -265,9 +326,12 @@ func main() {
 			if n >= 1 && (k < 1 || k > n || 2*k <= n) {
 				res.Violate("C13/threshold-range", fmt.Sprintf("GetGroupK(%d)=%d", n, k), n)
 			}
+			if want := (n*51 + 99) / 100; k != want {
+				res.Violate("C13/threshold-ceil", fmt.Sprintf("GetGroupK(%d)=%d, ceil(51n/100)=%d", n, k, want), n)
+			}
 			res.Count("groupk", fmt.Sprint("k", n), n >= 1)
 		}
-		cs.Add("CK "+hx.CoqList(pairs), map[string]int{"groupk_from": base0})
+		cs.add("CK "+hx.CoqList(pairs), map[string]int{"groupk_from": base0})
 	}
 
 	nShare, nAgg, nRec, nGen := a.N/4, a.N/10, a.N/3, a.N/5
@@ -282,7 +346,7 @@ func main() {
 		}
 		id := randID(rng)
 		sh := groupsig.ShareSeckey(secs, mkID(id)).GetBigInt()
-		cs.Add(fmt.Sprintf("CShare %s %s %s", zlist(csz), zs(id), zs(sh)), map[string]interface{}{"kind": "share", "coeffs": strs(csz), "id": id.String(), "share": sh.String()})
+		cs.add(fmt.Sprintf("CShare %s %s %s", zlist(csz), zs(id), zs(sh)), map[string]interface{}{"kind": "share", "coeffs": strs(csz), "id": id.String(), "share": sh.String()})
 		res.Count("share", "s"+id.String()+fmt.Sprint(strs(csz)), k >= 2)
 	}
 	// ---- AggregateSeckeys ----
@@ -295,7 +359,7 @@ func main() {
 			secs[j] = mkSec(l[j])
 		}
 		s := groupsig.AggregateSeckeys(secs).GetBigInt()
-		cs.Add(fmt.Sprintf("CAgg %s %s", zlist(l), zs(s)), map[string]interface{}{"kind": "agg", "l": strs(l), "sum": s.String()})
+		cs.add(fmt.Sprintf("CAgg %s %s", zlist(l), zs(s)), map[string]interface{}{"kind": "agg", "l": strs(l), "sum": s.String()})
 		res.Count("agg", "a"+fmt.Sprint(strs(l)), n >= 2)
 	}
 	// ---- recovery coefficients with arbitrary share scalars ----
@@ -328,9 +392,102 @@ func main() {
 				res.Violate("C13/recover-coefficients", "RecoverGroupSignature differs from sum_i delta_i*share_i", map[string]interface{}{"xs": strs(xs), "ys": strs(ys)})
 			}
 		}()
-		cs.Add(fmt.Sprintf("CRecover %s %s %s", zlist(xs), zlist(ys), zs(s)), map[string]interface{}{"kind": class, "xs": strs(xs), "ys": strs(ys), "s": s.String()})
+		cs.add(fmt.Sprintf("CRecover %s %s %s", zlist(xs), zlist(ys), zs(s)), map[string]interface{}{"kind": class, "xs": strs(xs), "ys": strs(ys), "s": s.String()})
 		res.Count(class, "r"+fmt.Sprint(strs(xs), strs(ys)), k >= 2)
 	}
+	// ---- recoverSignature on ordered slices (hook), including a repeated id ----
+	for i := 0; i < nRec/3; i++ {
+		k := 2 + rng.Intn(6)
+		xs := distinctIDs(rng, k)
+		class := "recover-ordered"
+		if rng.Intn(4) == 0 {
+			xs[rng.Intn(k-1)+1] = xs[0]
+			class = "recover-ordered-repeated-id"
+		}
+		ys := make([]*big.Int, k)
+		msg := rng.Bytes(32)
+		ids := make([]groupsig.ID, k)
+		sigs := make([]groupsig.Signature, k)
+		for j := range xs {
+			ys[j] = randScalar(rng, false)
+			ids[j] = mkID(xs[j])
+			sigs[j] = groupsig.Sign(mkSec(ys[j]), msg)
+		}
+		s := goLagrange(xs, ys)
+		func() {
+			defer func() {
+				if p := recover(); p != nil {
+					res.Violate("C13/recover-panic", fmt.Sprint(p), strs(xs))
+				}
+			}()
+			got := groupsig.VerifC13RecoverSignature(sigs, ids)
+			if !got.IsEqual(groupsig.Sign(mkSec(s), msg)) {
+				res.Violate("C13/recover-coefficients", "recoverSignature differs from sum_i delta_i*share_i", map[string]interface{}{"xs": strs(xs), "ys": strs(ys)})
+			}
+		}()
+		cs.add(fmt.Sprintf("CRecover %s %s %s", zlist(xs), zlist(ys), zs(s)), map[string]interface{}{"kind": class, "xs": strs(xs), "ys": strs(ys), "s": s.String()})
+		res.Count(class, "ro"+fmt.Sprint(strs(xs), strs(ys)), true)
+	}
+	// ---- base.Rand.RandomPerm and getRandomKSignInfo (hook) ----
+	for i := 0; i < a.N/6; i++ {
+		n := 1 + rng.Intn(12)
+		k := rng.Intn(n + 1)
+		rd := base.RandFromBytes(rng.Bytes(16))
+		var out []int
+		func() {
+			defer func() {
+				if p := recover(); p != nil {
+					res.Violate("C13/randomperm-panic", fmt.Sprint(p), []int{n, k})
+				}
+			}()
+			out = rd.RandomPerm(n, k)
+		}()
+		js := make([]int, k)
+		for t := 0; t < k; t++ {
+			js[t] = rd.Deri(t).Modulo(n-t) + t
+		}
+		seen := map[int]bool{}
+		okp := len(out) == k
+		for _, v := range out {
+			if v < 0 || v >= n || seen[v] {
+				okp = false
+			}
+			seen[v] = true
+		}
+		if !okp {
+			res.Violate("C13/randomperm-not-a-k-subset", fmt.Sprintf("RandomPerm(%d,%d) = %v", n, k, out), map[string]interface{}{"n": n, "k": k, "rand": rd.GetHexString()})
+		}
+		cs.add(fmt.Sprintf("CPerm %d%%nat %d%%nat %s %s", n, k, natlist(js), natlist(out)), map[string]interface{}{"kind": "randomperm", "n": n, "k": k, "js": js, "out": out})
+		res.Count("randomperm", fmt.Sprint("p", n, k, js), k >= 1)
+
+		// the subset RecoverGroupSignature recovers from: exactly k entries of the map, values unchanged
+		if k >= 1 {
+			m := map[string]groupsig.Signature{}
+			msg := rng.Bytes(8)
+			for _, x := range distinctIDs(rng, n) {
+				m[mkID(x).GetHexString()] = groupsig.Sign(mkSec(randScalar(rng, false)), msg)
+			}
+			func() {
+				defer func() {
+					if p := recover(); p != nil {
+						res.Violate("C13/select-panic", fmt.Sprint(p), []int{n, k})
+					}
+				}()
+				sub := groupsig.VerifC13RandomKSignInfo(m, k)
+				okq := len(sub) == k
+				for key, v := range sub {
+					if w, ok := m[key]; !ok || !w.IsEqual(v) {
+						okq = false
+					}
+				}
+				if !okq {
+					res.Violate("C13/select-not-a-k-subset", fmt.Sprintf("getRandomKSignInfo over %d entries, k=%d returned %d entries", n, k, len(sub)), []int{n, k})
+				}
+			}()
+			res.Count("select-k", fmt.Sprint("q", i, n, k), true)
+		}
+	}
+
 	// ---- GroupSignGenerator runs ----
 	for i := 0; i < nGen; i++ {
 		thr := 1 + rng.Intn(6)
@@ -382,7 +539,7 @@ func main() {
 		if rec != (len(firstX) >= thr) {
 			res.Violate("C13/generator-liveness", fmt.Sprintf("recovered=%v with %d distinct shares, threshold %d", rec, len(firstX), thr), js)
 		}
-		cs.Add(fmt.Sprintf("CGen %d%%nat %s %s %s %s", thr, hx.CoqList(msgs), hx.CoqList(obs), hx.CoqBool(rec), zs(s)), map[string]interface{}{"kind": "gen", "thr": thr, "steps": js})
+		cs.add(fmt.Sprintf("CGen %d%%nat %s %s %s %s", thr, hx.CoqList(msgs), hx.CoqList(obs), hx.CoqBool(rec), zs(s)), map[string]interface{}{"kind": "gen", "thr": thr, "steps": js})
 		res.Count(fmt.Sprintf("gen-recovered-%v", rec), "g"+fmt.Sprint(js), true)
 	}
 
@@ -396,7 +553,7 @@ func main() {
 		for n := 3; n <= 10; n++ {
 			var g *group
 			if (round+n)%2 == 0 {
-				g = groupViaDKG(rng, res, n)
+				g = groupViaDKG(rng, res, cs, n)
 			} else {
 				g = groupViaAPI(rng, res, n, model.Param.GetGroupK(n))
 			}
@@ -423,9 +580,13 @@ func main() {
 			}
 			// model case
 			var sels []string
-			for t := 0; t < 4; t++ {
+			for t := 0; t < 3; t++ {
 				p := perm(rng, n)
-				sels = append(sels, natlist(p[:g.k+rng.Intn(n-g.k+1)]))
+				sz := g.k
+				if t == 2 {
+					sz = g.k + rng.Intn(n-g.k+1)
+				}
+				sels = append(sels, natlist(p[:sz]))
 			}
 			var dl []string
 			var djs [][]string
@@ -433,7 +594,7 @@ func main() {
 				dl = append(dl, zlist(d))
 				djs = append(djs, strs(d))
 			}
-			cs.Add(fmt.Sprintf("CDkg %s %s %s %s %s", hx.CoqList(dl), zlist(g.ids), zlist(g.keys), zs(g.gsk), hx.CoqList(sels)),
+			cs.add(fmt.Sprintf("CDkg %s %s %s %s %s", hx.CoqList(dl), zlist(g.ids), zlist(g.keys), zs(g.gsk), hx.CoqList(sels)),
 				map[string]interface{}{"kind": "dkg:" + g.via, "n": n, "k": g.k, "dealers": djs, "ids": strs(g.ids), "keys": strs(g.keys), "gsk": g.gsk.String()})
 			res.Count("dkg-"+g.via, fmt.Sprint("d", strs(g.ids)), true)
 
@@ -448,42 +609,55 @@ func main() {
 			}
 			for si, sub := range subs {
 				for ord := 0; ord < 3; ord++ {
-					p := perm(rng, len(sub))
-					arrival := make([]int, len(sub))
-					for i, x := range p {
-						arrival[i] = sub[x]
-					}
-					// path 1: the share collector in arrival order
-					gen := model.NewGroupSignGenerator(g.k)
-					for pos, j := range arrival {
-						add, gend := gen.AddWitnessSign(mkID(g.ids[j]), shareSigs[j])
-						if (pos < g.k) != add || (pos >= g.k-1) != gend {
-							res.Violate("C13/collector-flags:"+g.via, fmt.Sprintf("AddWitnessSign #%d of %d (k=%d) returned add=%v generated=%v", pos, len(arrival), g.k, add, gend), arrival)
+					func() {
+						defer func() {
+							if p := recover(); p != nil {
+								res.Violate("C13/subset-panic:"+g.via, fmt.Sprint(p), map[string]interface{}{"n": n, "k": g.k, "ids": strs(g.ids), "subset": sub})
+							}
+						}()
+						p := perm(rng, len(sub))
+						arrival := make([]int, len(sub))
+						for i, x := range p {
+							arrival[i] = sub[x]
 						}
-					}
-					got1 := gen.GetGroupSign()
-					// path 2: RecoverGroupSignature over the whole subset (internal random k-selection)
-					m := map[string]groupsig.Signature{}
-					for _, j := range arrival {
-						m[mkID(g.ids[j]).GetHexString()] = shareSigs[j]
-					}
-					got2 := groupsig.RecoverGroupSignature(m, g.k)
-					for pi, got := range []groupsig.Signature{got1, *got2} {
-						path := []string{"collector", "recover"}[pi]
-						ok := got.IsEqual(want)
-						if !ok {
-							res.Violate(fmt.Sprintf("C13/subset-order:%s:%s", path, g.via), "recovered signature differs from Sign(group secret)",
-								map[string]interface{}{"n": n, "k": g.k, "ids": strs(g.ids), "dealers": djs, "arrival": arrival, "msg": hex.EncodeToString(msg)})
+						// path 1: the share collector in arrival order
+						gen := model.NewGroupSignGenerator(g.k)
+						for pos, j := range arrival {
+							add, gend := gen.AddWitnessSign(mkID(g.ids[j]), shareSigs[j])
+							if (pos < g.k) != add || (pos >= g.k-1) != gend {
+								res.Violate("C13/collector-flags:"+g.via, fmt.Sprintf("AddWitnessSign #%d of %d (k=%d) returned add=%v generated=%v", pos, len(arrival), g.k, add, gend), arrival)
+							}
+							// the same member again must not count towards the threshold
+							if pos < g.k-1 && ord == 0 {
+								if add2, gend2 := gen.AddWitnessSign(mkID(g.ids[arrival[rng.Intn(pos+1)]]), shareSigs[j]); add2 || gend2 {
+									res.Violate("C13/collector-duplicate:"+g.via, fmt.Sprintf("a repeated member was accepted (add=%v generated=%v) after %d of %d shares", add2, gend2, pos+1, g.k), arrival)
+								}
+							}
 						}
-						if (si+ord+pi)%5 == 0 || !ok {
-							if !groupsig.VerifySig(g.gpk, msg, got) {
-								res.Violate(fmt.Sprintf("C13/subset-verify:%s:%s", path, g.via), "recovered signature does not verify under the group public key",
+						got1 := gen.GetGroupSign()
+						// path 2: RecoverGroupSignature over the whole subset (internal random k-selection)
+						m := map[string]groupsig.Signature{}
+						for _, j := range arrival {
+							m[mkID(g.ids[j]).GetHexString()] = shareSigs[j]
+						}
+						got2 := groupsig.RecoverGroupSignature(m, g.k)
+						for pi, got := range []groupsig.Signature{got1, *got2} {
+							path := []string{"collector", "recover"}[pi]
+							ok := got.IsEqual(want)
+							if !ok {
+								res.Violate(fmt.Sprintf("C13/subset-order:%s:%s", path, g.via), "recovered signature differs from Sign(group secret)",
 									map[string]interface{}{"n": n, "k": g.k, "ids": strs(g.ids), "dealers": djs, "arrival": arrival, "msg": hex.EncodeToString(msg)})
 							}
-							res.Histogram["verified-under-gpk"]++
+							if (si+ord+pi)%5 == 0 || !ok {
+								if !groupsig.VerifySig(g.gpk, msg, got) {
+									res.Violate(fmt.Sprintf("C13/subset-verify:%s:%s", path, g.via), "recovered signature does not verify under the group public key",
+										map[string]interface{}{"n": n, "k": g.k, "ids": strs(g.ids), "dealers": djs, "arrival": arrival, "msg": hex.EncodeToString(msg)})
+								}
+								res.Histogram["verified-under-gpk"]++
+							}
+							res.Count(fmt.Sprintf("subset-n%d-%s", n, path), fmt.Sprint(round, n, arrival, pi), true)
 						}
-						res.Count(fmt.Sprintf("subset-n%d-%s", n, path), fmt.Sprint(round, n, arrival, pi), true)
-					}
+					}()
 				}
 				if sampled < 6 && si%17 == 3 {
 					sampled++
@@ -504,8 +678,9 @@ func main() {
 	}
 	sort.Strings(keys)
 	fmt.Println("histogram:", strings.Join(keys, " "))
-	cs.Close()
-	res.ModelCases = cs.Total()
+	cs.flush(out, perShard)
+	out.Close()
+	res.ModelCases = out.Total()
 	res.Write(a.Out)
 }
 
